@@ -11,6 +11,7 @@ from __future__ import annotations
 import copy
 import itertools
 import json
+import os
 import shutil
 import tempfile
 
@@ -109,6 +110,13 @@ def make_storage(skind):
     if skind == 'fsmem':
         return MemFsspecStorage(), None
     tmp = tempfile.mkdtemp(prefix='c08_')
+    if skind in ('local-rel', 'fsspec-rel'):
+        # the storage directory is given as a relative path (the form the README uses) and the
+        # caller's working directory changes between the operations of the history
+        for w in ('work0', 'work1'):
+            os.mkdir(os.path.join(tmp, w))
+        os.chdir(tmp)
+        return (LocalStorage('store') if skind == 'local-rel' else LocalFsspecStorage('store')), tmp
     return (LocalStorage(tmp) if skind == 'local' else LocalFsspecStorage(tmp)), tmp
 
 
@@ -123,6 +131,9 @@ def copy_storage(skind, storage, tmp):
         return storage.clone(), None
     t2 = tempfile.mkdtemp(prefix='c08c_')
     shutil.rmtree(t2)
+    if skind.endswith('-rel'):
+        shutil.copytree(os.path.join(tmp, 'store'), t2, symlinks=True)
+        return (LocalStorage(t2) if skind == 'local-rel' else LocalFsspecStorage(t2)), t2
     shutil.copytree(tmp, t2, symlinks=True)
     return (LocalStorage(t2) if skind == 'local' else LocalFsspecStorage(t2)), t2
 
@@ -139,6 +150,8 @@ def second_handle(skind, storage, tmp):
         return c
     if skind == 'null':
         return None
+    if skind.endswith('-rel'):
+        return LocalStorage(os.path.join(tmp, 'store')) if skind == 'local-rel' else LocalFsspecStorage(os.path.join(tmp, 'store'))
     return LocalStorage(tmp) if skind == 'local' else LocalFsspecStorage(tmp)
 
 
@@ -159,6 +172,7 @@ def replay_history(cfg, hist, check_last_only=True):
     # place, while one long-lived Lab + storage object only observes (after every step) - state kept
     # inside a storage / cache / Lab object that another object's writes do not refresh would show.
     silence_labtech()
+    cwd0 = os.getcwd()
     storage, tmp = make_storage(skind)
     shared_lab = labtech.Lab(storage=storage, runner_backend='serial', notebook=False) if reuse_lab else None
     fixed_tasks = build_tasks(kind) if mode == 'same-tasks' else None
@@ -169,6 +183,8 @@ def replay_history(cfg, hist, check_last_only=True):
     try:
         for step, op in enumerate(hist):
             epoch = step + 1
+            if skind.endswith('-rel'):
+                os.chdir(os.path.join(tmp, f'work{step % 2}'))
             failing = (op[3],) if op[0] == 'runfail' else ()
             U.WORLD.reset(epoch=epoch, faults=[NODES[i][0] for i in failing])
             tasks = fixed_tasks or build_tasks(kind)
@@ -264,6 +280,7 @@ def replay_history(cfg, hist, check_last_only=True):
         canon = canonical(model, final_keys)
         return viols, canon
     finally:
+        os.chdir(cwd0)
         if isinstance(storage, MemStorage):
             storage.release()
         if isinstance(storage, MemFsspecStorage):
@@ -329,11 +346,11 @@ def _j(x):
 def run(tier: str, seed: int) -> Result:
     silence_labtech()
     if tier == 'quick':
-        cfgs = [(('mem', 'TA'), 3), (('mem', 'TA', 'one-lab'), 3), (('mem', 'TA', 'same-tasks'), 3), (('fsspec', 'TA', 'observer'), 2), (('local', 'TA', 'observer'), 2), (('mem', 'TJ'), 2), (('mem', 'T2'), 2), (('local', 'TA'), 2), (('fsspec', 'TA'), 2), (('fsmem', 'TA'), 2), (('null', 'TA'), 2)]
+        cfgs = [(('mem', 'TA'), 3), (('mem', 'TA', 'one-lab'), 3), (('mem', 'TA', 'same-tasks'), 3), (('fsspec', 'TA', 'observer'), 2), (('local', 'TA', 'observer'), 2), (('mem', 'TJ'), 2), (('mem', 'T2'), 2), (('local', 'TA'), 2), (('fsspec', 'TA'), 2), (('fsmem', 'TA'), 2), (('null', 'TA'), 2), (('local-rel', 'TA', 'one-lab'), 2), (('fsspec-rel', 'TA', 'one-lab'), 2)]
     else:
         cfgs = [(('mem', 'TA'), 4), (('mem', 'TA', 'one-lab'), 4), (('local', 'TA', 'one-lab'), 3), (('mem', 'TA', 'same-tasks'), 4), (('local', 'TJ', 'same-tasks'), 3),
                 (('fsspec', 'TA', 'observer'), 3), (('local', 'TA', 'observer'), 3), (('fsmem', 'TA', 'observer'), 3), (('mem', 'TJ', 'observer'), 3), (('mem', 'TJ'), 3), (('mem', 'T2'), 3), (('local', 'TA'), 3), (('fsspec', 'TA'), 3),
-                (('local', 'TJ'), 2), (('fsspec', 'TJ'), 2), (('fsmem', 'TA'), 3), (('fsmem', 'TJ'), 2), (('null', 'TA'), 3)]
+                (('local', 'TJ'), 2), (('fsspec', 'TJ'), 2), (('fsmem', 'TA'), 3), (('fsmem', 'TJ'), 2), (('null', 'TA'), 3), (('local-rel', 'TA', 'one-lab'), 3), (('fsspec-rel', 'TA', 'one-lab'), 2), (('local-rel', 'TJ'), 2)]
     stats = {'states': 0, 'transitions': 0, 'revisits': 0, 'frontier_sizes': []}
     viols: list = []
     per_cfg = []
